@@ -75,6 +75,11 @@ func New(open func() (ReadAtCloser, error), gracePeriod time.Duration) *SharedFi
 // the pool evicts or [SharedFile.Close] is called. Pass nil for
 // pool to disable pooling (equivalent to [New]).
 func NewWithPool(open func() (ReadAtCloser, error), gracePeriod time.Duration, pool *fdpool.Pool) *SharedFile {
+	// A no-op pool (fdpool.New(0)) never evicts: keep the grace-period
+	// close, as without a pool, or an idle descriptor is never closed.
+	if pool != nil && pool.Stats().Capacity <= 0 {
+		pool = nil
+	}
 	return &SharedFile{open: open, gracePeriod: gracePeriod, pool: pool}
 }
 
